@@ -253,4 +253,66 @@ def sIface (X : SCtx) (self : SVal) : Iface SW :=
 def selInitX (X : SCtx) (w : SW) (s : Nat) (clause ops : SVal) : CallRes SW :=
   PyIS.run (sIface X (.ref 10 0)) selInitProg [.cls s, clause, .none, .none, ops] w
 
+
+/-! ### `InheritableSQLObject.selectBy`, translated
+
+Additional interface: `cls.sqlmeta.columns` : the dict `name ↦ column object` of the class's own columns (+ `childName` for
+an inheritable class); `column.foreignKey` / `column.foreignName` : None (the class trees of this model have no foreign
+keys); `cls.q` : a handle; `getattr(cls.q, <name of column k of class a>)` : the field `.fldCol a k` when the column is
+declared by the class or an ancestor (`__classinit__` copies the parents' fields into `cls.q`), else AttributeError;
+`isinstance(v, SQLObject)` : `v` is an instance; `cls.SelectResultsClass(cls, clause, connection=conn)` : the TRANSLATED
+`InheritableSelectResults.__init__` (`selInitX`) on a new object, which is returned. -/
+
+def colsDictS (T : Tree) (c : Nat) : SVal :=
+  PyIS.Val.ofList ((if T.inh c then [PyIS.Val.pair (.str "childName") (.ref 4 c)] else []) ++
+    (List.range (T.ncols c)).map fun j => PyIS.Val.pair (.name c j) (.pair (.ref 3 c) (.nat j)))
+
+def bAttrOf (X : SCtx) (w : SW) (v : SVal) (path : List String) : R SVal :=
+  match v with
+  | .cls c =>
+    if path = ["sqlmeta", "columns"] then .ok (colsDictS X.T c)
+    else if path = ["q"] then .ok (.ref 11 c)
+    else sAttrOf X w v path
+  | .pair (.ref 3 _) (.nat _) => if path = ["foreignKey"] ∨ path = ["foreignName"] then .ok .none else .stuck
+  | .ref 4 _ => if path = ["foreignKey"] ∨ path = ["foreignName"] then .ok .none else .stuck
+  | _ => sAttrOf X w v path
+
+def bGetattr (X : SCtx) (v n : SVal) : R SVal :=
+  match v, n with
+  | .ref 11 c, .name a k => if attrOK X.T c a k then .ok (.fldCol a k) else .exc ⟨.attributeError, 0⟩
+  | _, _ => .stuck
+
+def bIsinstance (v : SVal) (cls : String) : Option Bool :=
+  if cls = "SQLObject" then
+    (match v with
+     | .inst _ _ _ => some true
+     | _ => some false)
+  else sIsinstance v cls
+
+def bCall (X : SCtx) (w : SW) (recv : SVal) (m : String) (args : List SVal) (kw : List (String × SVal)) (star : SVal) :
+    CallRes SW :=
+  match recv, args, kw with
+  | .cls _, [.cls s, cl], [(n, .conn k)] =>
+    if m = "SelectResultsClass" ∧ n = "connection" ∧ star = .none then
+      (match selInitX X w s cl (.cons (.pair (.str "connection") (.conn k)) .nil) with
+       | .ret w' _ => .ret w' (.ref 10 0)
+       | r => r)
+    else .stuck
+  | _, _, _ => .stuck
+
+def bIface (X : SCtx) (self : SVal) : Iface SW :=
+  { sIface X self with
+    attrOf := bAttrOf X
+    getattr := fun _ => bGetattr X
+    isinstance := fun _ => bIsinstance
+    call := bCall X }
+
+/-- the `**kw` of `selectBy`: `<column k of class a> = v` -/
+def kwS (kvs : List (Nat × Nat × Inherit.Val)) : SVal :=
+  PyIS.Val.ofList (kvs.map fun y => PyIS.Val.pair (.name y.1 y.2.1) (.int y.2.2))
+
+/-- `<cls c>.selectBy(connection, **kw)` -/
+def selectByX (X : SCtx) (w : SW) (c : Nat) (connv : SVal) (kvs : List (Nat × Nat × Inherit.Val)) : CallRes SW :=
+  PyIS.run (bIface X (.cls c)) selectByProg [connv, kwS kvs] w
+
 end SqlObjVerif.InhSel
